@@ -161,7 +161,8 @@ def myokit_to_gotran(model: myokit.Model, protocol=None) -> ODE:
 
     all_subs, component_subs = extract_nested_variables(model)
 
-    initial_values = model.initial_values()
+    # (as numbers: an initial value can be written with a unit or as an expression)
+    initial_values = model.initial_values(as_floats=True)
     components = []
     for component in model.components():
         states = []
